@@ -120,6 +120,22 @@ def fam_feature_hidden_id(q):
         lambda s, g: sorted(ft["id"] for ft in s["_feat"]["feats"] if ft["id"] != 1), sorted([1001, q])
 
 
+def fam_rule_map_entries(q):
+    """q rules with one and the same pattern of ten two-glyph items, plus ten rules that tell the two glyphs apart at each
+    position: 1024 success states, each of which lists the q rules (and some of the ten): the offsets into that list
+    are 16-bit fields of the pass block (58 rules: 64512 entries; 60: 66560)"""
+    L = 10
+    g = "table(glyph) cAB = glyphid(3, 4); cA = glyphid(3); cX = glyphid(7); endtable;\n"
+    rules = []
+    for k in range(L):
+        items = ["cAB"] * L
+        items[k] = "cA"
+        rules.append("%s > cX / _ %s;" % (items[0], " ".join(items[1:])))
+    for j in range(q):
+        rules.append("cAB {user1 = %d} / _ {user1 == %d} %s;" % (j, j, " ".join(["cAB"] * (L - 1))))
+    return HDR + g + "table(sub) pass(1)\n" + "\n".join(rules) + "\nendpass; endtable;\n", [], None, (None if q <= 58 else "MUST-REJECT")
+
+
 def fam_features(q):
     feats = "".join('f%d { id = %d; name.1033 = string("F%d"); settings { a%d { value = 0; name.1033 = string("x"); } } default = a%d; }\n' % (i, 100 + i, i, i, i) for i in range(q))
     return HDR + GT + "table(feature)\n" + feats + "endtable;\ntable(sub) cA > cB; endtable;\n", [], None, q
@@ -216,6 +232,7 @@ FAMILIES = [
     ("feature_setting_value_negative", lambda q: fam_feature_setting_value(-q), [32767, 32768, 32769, 70000], 120),
     ("sill_table_bytes", fam_sill_bytes, [100, 133, 135, 140, 260], 120),
     ("feature_hidden_id", fam_feature_hidden_id, [65534, 65535, 65536, 0x73776170], 120),
+    ("rule_map_entries", fam_rule_map_entries, [20, 58, 60, 130], 120),
     ("features", fam_features, [62, 63, 64, 65, 200], 120),
     ("user_attr_index", fam_userattr, [15, 16, 17, 64], 120),
     ("glyph_attrs", fam_gattrs, [250, 252, 253, 256, 300], 120),
